@@ -2116,6 +2116,20 @@ def _(it, ci, a, d):
     return opt_of(min(items) if items else None)
 
 
+@model('bool::then_some')
+def _(it, ci, a, d):
+    c = a[0]
+    c = it.decide(c, 'then_some') if is_sym(c) else bool(c)
+    return some(a[1]) if c else none()
+
+
+@model('bool::then')
+def _(it, ci, a, d):
+    c = a[0]
+    c = it.decide(c, 'then') if is_sym(c) else bool(c)
+    return some(it.call_value(a[1], [])) if c else none()
+
+
 # ---- more Option / Result combinators
 @model('Option::unwrap_or')
 def _(it, ci, a, d):
